@@ -923,6 +923,15 @@ func (in *interpreter) decodeRune(b []value) (value, int) {
 func (in *interpreter) rangeIter(x value, t types.Type) iter {
 	switch x := x.(type) {
 	case *omap:
+		if in.mapOrderBoth && in.path != nil && x.len() >= 2 {
+			// Go's map iteration order is unspecified: the harness asked for both the insertion
+			// order and its reverse to be explored (one choice per path)
+			if !in.mapOrderDecided {
+				in.mapOrderDecided = true
+				in.mapOrderRev = in.path.Choose(2) == 1
+			}
+			return &omapIter{m: x, rev: in.mapOrderRev}
+		}
 		return &omapIter{m: x}
 	case string:
 		return &sstrIter{in: in, b: strElems(x)}
